@@ -415,6 +415,10 @@ async fn on_connected(
         tokio::select! {
             Some(mux_task_joinset_result) = mux_task_joinset.join_next() => {
                 mux_task_joinset_result.expect("Task panicked (this is a bug)")?;
+                // The multiplexor task has exited without an error, which means that the
+                // server closed the connection in an orderly way. The multiplexor is
+                // unusable from now on, so leave and let the caller reconnect.
+                return Err(Error::ServerDisconnected);
             }
             Some(sender) = stream_command_rx.recv() => {
                 if let Err(e) = get_send_stream_chan(&mux, sender, failed_stream_request, args.channel_timeout).await {
